@@ -82,9 +82,6 @@ Definition flag (ok : bool) (clause : nat) (c : cst) : cst :=
 Definition upd (c : cst) (lv : list nat) (k att : nat) : cst :=
   mkC lv k att (c_args c) (c_cns c) (c_bad c).
 Definition nonempty {A} (l : list A) : bool := match l with [] => false | _ => true end.
-Definition is_loss (ev : event) : bool := match ev with Loss _ => true | _ => false end.
-Definition is_abort_ev (ev : event) : bool := match ev with Shutdown | Sigint => true | _ => false end.
-Definition is_connect_ev (ev : event) : bool := match ev with Connect _ _ _ => true | _ => false end.
 Definition is_lost (e : eff) : bool := match e with FLost => true | _ => false end.
 Definition is_eio_disc (e : eff) : bool := match e with FEioDisconnect _ => true | _ => false end.
 Definition is_task_end (e : eff) : bool := match e with FTaskEnd _ _ => true | _ => false end.
@@ -118,7 +115,6 @@ Definition chk_eff (p : params) (ev : event) (c : cst) (e : eff) : cst :=
       else flag (negb (is_abort_ev ev)) 5 (flag false 4 c)
   | FSendConnect n auth =>
       if is_timeout ev then flag (Nat.eqb auth (a_auth (c_args c)) && mem n (c_cns c)) 7 c else c
-  | FOther => flag false 1 c
   | _ => c
   end.
 
@@ -144,7 +140,7 @@ Fixpoint chk_events (p : params) (c : cst) (evs : list event) (effs : list (list
   match evs, effs with
   | ev :: evs', es :: effs' => chk_events p (chk_event p c ev es) evs' effs'
   | [], [] => c
-  | _, _ => flag false 1 c
+  | _, _ => c          (* ragged observation: reported by [agree] *)
   end.
 
 Definition c0 : cst := mkC [] 0 0 (mkArgs 0 0 0 0 0) [] [].
